@@ -159,6 +159,16 @@ CLAIMED = {
         "_FillValue attributes.",
    note="Offsets are written with two hour digits (the reading of one-digit hours differs between cftime and ISO-8601); third-party netCDF I/O trusted.",
    ref="5 C17"),
+ "C18": dict(
+   text="TLC checks on a block of lattice cells with a hole, for every valid simple path of 2 (quick) / 3 (thorough) vertices with "
+        "axis-parallel or 45-degree segments on the quarter-cell lattice, that the operational pieces (maximal runs of unit steps "
+        "inside a closed cell) lie inside their cell, are maximal and disjoint per cell, cover exactly the steps inside the model, "
+        "and that their lengths add up unless a step runs along a shared edge (then it is counted twice); Transect.segments and "
+        "prepare_data_array_for_transect on datasets of every convention for fixed and seeded polylines are validated by TLC as a "
+        "refinement: per cell the observed segments tile exactly the steps inside it, end points on the path with start before "
+        "end, cell indexes coherent, listing and metre distances in path order, prepared values = the segment's cell at every depth.",
+   note="cfunits stand-in; metres used for order only; simple paths; known finding F9 (paths along shared edges are double counted).",
+   ref="5 C18"),
  "C19": dict(
    text="TLC checks on the bounded universe that the specification's collection pairs every valid cell's outline with that cell's "
         "value (one patch per valid cell, none for holes) and that a variable with leftover dimensions has no collection; recorded "
